@@ -939,13 +939,13 @@ func decodeNodeEventMessage(pb *internal.NodeEventMessage, m *pilosa.NodeEvent) 
 }
 
 func decodeNodeStatus(pb *internal.NodeStatus, m *pilosa.NodeStatus) {
+	m.Node = &pilosa.Node{}
+	m.Schema = &pilosa.Schema{}
 	if pb == nil {
 		return
 	}
-	m.Node = &pilosa.Node{}
 	decodeNode(pb.Node, m.Node)
 	m.Indexes = decodeIndexStatuses(pb.Indexes)
-	m.Schema = &pilosa.Schema{}
 	decodeSchema(pb.Schema, m.Schema)
 }
 
